@@ -171,15 +171,15 @@ def sym_row_counter(vc):
                 newp, newr = term(wp[-1].value, IntS), term(wr[-1].value, IntS)
                 check(it, 'package-count-increased-by-rows-pulled',
                       newp == z3.If(_b(hp), term(old_p, IntS) if old_p is not None else 0, 0) + n)
-                check(it, 'resource-count-increased-by-rows-pulled',
-                      newr == z3.If(_b(hr), term(old_r, IntS) if old_r is not None else 0, 0) + n)
+                # (the property: the recorded count of a resource IS its number of rows -- whatever an earlier dump left in
+                # the descriptor that was loaded; the package total is a sum over the resources of this dump)
+                check(it, 'resource-count-is-the-number-of-rows-pulled', newr == n)
             wm = [e for e in post if e.kind == 'TreeWrite' and e.node is mine and e.key == 'count_of_rows']
             check(it, 'count-recorded-in-the-package-entry-of-this-resource-only', len(wm) >= 1 and
                   not [e for e in post if e.kind == 'TreeWrite' and e.node is other])
             if wm:
                 oldm = mine.init_children.get('count_of_rows')
-                check(it, 'package-entry-count-increased-by-rows-pulled', term(wm[-1].value, IntS) ==
-                      z3.If(_b(mine.init_has['count_of_rows']), term(oldm, IntS) if oldm is not None else 0, 0) + n)
+                check(it, 'package-entry-count-is-the-number-of-rows-pulled', term(wm[-1].value, IntS) == n)
             cm = calls(post, method='commit')
             check(it, 'both-descriptors-committed-after-counting', len(cm) == 2 and cm[0].target is r.attrs['res'] and
                   cm[1].target is d.attrs['datapackage'])
@@ -446,8 +446,7 @@ def sym_rows_processor(vc):
                 if len(wb) >= 1 and len(wpb) >= 1:
                     oldr = mine.init_children.get('bytes')
                     oldp = dpd.init_children.get('bytes')
-                    check(it, 'resource-bytes-is-old-plus-file-size' + tag, term(wb[-1].value, IntS) ==
-                          z3.If(_b(mine.init_has['bytes']), term(oldr, IntS) if oldr is not None else 0, 0) + tf.size)
+                    check(it, 'resource-bytes-is-the-file-size' + tag, term(wb[-1].value, IntS) == tf.size)
                     check(it, 'package-bytes-is-old-plus-file-size' + tag, term(wpb[-1].value, IntS) ==
                           z3.If(_b(dpd.init_has['bytes']), term(oldp, IntS) if oldp is not None else 0, 0) + tf.size)
                 else:
